@@ -36,8 +36,22 @@ def gen_lexicon(rng, k):
         e = {'id': f'{lexid}-w{i}', 'meta': None, 'lemma': {'writtenForm': lemma, 'partOfSpeech': pos},
              'senses': [{'id': f'{lexid}-w{i}-s0', 'synset': f'{lexid}-ss0', 'meta': None}]}
         if forms:
-            e['forms'] = [{'writtenForm': f} for f in forms]
+            # some forms (and lemmas) carry a script: Form objects of equal text but different script
+            # compare unequal, which must not hide a lemma from the exception map (fixed in 01ec6b6)
+            e['forms'] = [dict({'writtenForm': f}, **({'script': rng.choice(['Latn', 'Cyrl'])} if rng.random() < 0.3 else {}))
+                          for f in forms]
+        if rng.random() < 0.15:
+            e['lemma']['script'] = 'Latn'
         entries.append(e)
+    if rng.random() < 0.5:
+        # two words of one part of speech listing the same additional form, one of them with a script
+        pos = rng.choice(['n', 'v', 'a', 'r'])
+        shared = rng.choice(['went', 'geese', 'better'])
+        for j, (lemma, script) in enumerate([(rng.choice(stems[:20]), 'Latn'), (rng.choice(stems[20:]), None)]):
+            i = len(entries)
+            entries.append({'id': f'{lexid}-w{i}', 'meta': None, 'lemma': {'writtenForm': lemma, 'partOfSpeech': pos},
+                            'forms': [dict({'writtenForm': shared}, **({'script': script} if script else {}))],
+                            'senses': [{'id': f'{lexid}-w{i}-s0', 'synset': f'{lexid}-ss0', 'meta': None}]})
     lx = {'id': lexid, 'version': '1', 'label': 'morphy test', 'language': 'en', 'email': 'a@b.c', 'license': 'L',
           'meta': None, 'entries': entries,
           'synsets': [{'id': f'{lexid}-ss0', 'ili': '', 'partOfSpeech': 'n', 'meta': None}]}
@@ -131,7 +145,7 @@ def oracle(ctx, lx, q, p, init, got):
     """the statement, directly from the document"""
     from wn.morphy import DETACHMENT_RULES  # only for the key order; rules come from the spec table below
     ws = words_of(lx)
-    sc = {'lexicon_words': ws, 'query': q, 'pos': p, 'initialized': init}
+    sc = {'lexicon_words': ws, 'lexicon': lx, 'query': q, 'pos': p, 'initialized': init}
     poslist = ['n', 'v', 'a', 'r', 's'] if p is None else ([p] if p in ('n', 'v', 'a', 'r', 's') else [])
     for pos in poslist:
         lemmas = {fs[0] for pp, fs in ws if pp == pos}
@@ -198,12 +212,12 @@ def process(ctx, cases):
                     if models is not None:
                         m = models[2 * k + (0 if init else 1)][i]
                         if m != got:
-                            ctx.disagree({'lexicon_words': words_of(lx), 'query': q, 'pos': p, 'initialized': init}, got, m, 'morphy')
+                            ctx.disagree({'lexicon_words': words_of(lx), 'lexicon': lx, 'query': q, 'pos': p, 'initialized': init}, got, m, 'morphy')
                     oracle(ctx, lx, q, p, init, got)
                 i += 1
         for rec in im['wn']:
             ctx.case(None)
-            sc = {'lexicon_words': words_of(lx), 'query': rec['q'], 'pos': rec['pos'], 'lemmatizer': rec['mode']}
+            sc = {'lexicon_words': words_of(lx), 'lexicon': lx, 'query': rec['q'], 'pos': rec['pos'], 'lemmatizer': rec['mode']}
             if sorted(rec['got']) != rec['union'] or len(set(rec['got'])) != len(rec['got']):
                 ctx.fail('wordnet-with-lemmatizer-finds-the-union-without-duplicates(words)', sc, rec)
             if sorted(rec['got_senses']) != rec['union_senses'] or len(set(rec['got_senses'])) != len(rec['got_senses']):
@@ -214,6 +228,11 @@ def process(ctx, cases):
 def run(ctx):
     n = 12 if ctx.tier == 'quick' else 120
     cases = []
+    # witnesses of past failures first
+    import core
+    for f in sorted((core.CORPUS / PID).glob('*.json')):
+        sc = json.loads(f.read_text())['scenario']
+        cases.append((sc['lexicon'], [sc['query']]))
     for k in range(n):
         lx = gen_lexicon(ctx.rng, k)
         cases.append((lx, queries(ctx.rng, lx, 30 if ctx.tier == 'quick' else 60)))
@@ -231,6 +250,9 @@ def widen(ctx):
 
 
 def replay(ctx, scenario):
+    if scenario.get('lexicon'):
+        process(ctx, [(scenario['lexicon'], [scenario['query']])])
+        return
     ws = scenario['lexicon_words']
     lx = {'id': 'mr', 'version': '1', 'label': 'r', 'language': 'en', 'email': 'a@b.c', 'license': 'L', 'meta': None,
           'entries': [dict({'id': f'mr-w{i}', 'meta': None, 'lemma': {'writtenForm': fs[0], 'partOfSpeech': p},
